@@ -334,7 +334,10 @@ type KnownFindings struct {
 type KnownFinding struct {
 	Property string `json:"property"`
 	Key      string `json:"key"`
-	What     string `json:"what"`
+	// KeyPattern (optional, Go regexp, anchored by the author) identifies the finding by the
+	// failing construct inside a minimised witness instead of one exact key.
+	KeyPattern string `json:"key_pattern,omitempty"`
+	What       string `json:"what"`
 	Witness  any    `json:"witness,omitempty"`
 }
 
